@@ -23,10 +23,11 @@ type goScope struct {
 	vars   map[string]types.Type
 	rename map[string]string // identifier renames (old_ snapshots)
 	oldSc  *goScope
+	nowSc  *goScope
 }
 
 func (s *goScope) child() *goScope {
-	n := &goScope{vars: map[string]types.Type{}, rename: map[string]string{}, oldSc: s.oldSc}
+	n := &goScope{vars: map[string]types.Type{}, rename: map[string]string{}, oldSc: s.oldSc, nowSc: s.nowSc}
 	for k, v := range s.vars {
 		n.vars[k] = v
 	}
@@ -34,6 +35,13 @@ func (s *goScope) child() *goScope {
 		n.rename[k] = v
 	}
 	return n
+}
+
+func typeUnder(t types.Type) types.Type {
+	if t == nil {
+		return nil
+	}
+	return t.Underlying()
 }
 
 func (g *goGen) fail(f string, a ...interface{}) {
@@ -120,6 +128,17 @@ func (g *goGen) expr(e SpecExpr, sc *goScope) (string, types.Type) {
 		}
 		a, ta := g.expr(x.L, sc)
 		b, tb := g.expr(x.R, sc)
+		if x.Op == "==" || x.Op == "!=" {
+			_, sa := typeUnder(ta).(*types.Slice)
+			_, sb := typeUnder(tb).(*types.Slice)
+			if sa && sb {
+				neg := ""
+				if x.Op == "!=" {
+					neg = "!"
+				}
+				return neg + "hvcSameSlice(" + a + ", " + b + ")", types.Typ[types.Bool]
+			}
+		}
 		var rt types.Type
 		switch x.Op {
 		case "&&", "||", "==", "!=", "<", "<=", ">", ">=":
@@ -230,7 +249,14 @@ func (g *goGen) call(x *SCall, sc *goScope) (string, types.Type) {
 			g.fail("old() not available")
 			return "0", nil
 		}
-		return g.expr(x.Args[0], sc.oldSc)
+		o := sc.oldSc.child()
+		o.nowSc = sc
+		return g.expr(x.Args[0], o)
+	case "now":
+		if sc.nowSc != nil {
+			return g.expr(x.Args[0], sc.nowSc)
+		}
+		return g.expr(x.Args[0], sc)
 	case "len", "cap":
 		a, _ := g.expr(x.Args[0], sc)
 		return x.Fun + "(" + a + ")", types.Typ[types.Int]
@@ -316,6 +342,7 @@ func (g *goGen) specFuncDecls() string {
 			fmt.Fprintf(&sb, "func hvcS_%s(%s) %s { return %s }\n", sf.Name, strings.Join(ps, ", "), g.typeStr(rt), body)
 		}
 	}
+	sb.WriteString("func hvcSameSlice[T any](a, b []T) bool { return len(a) == len(b) && (len(a) == 0 && (a == nil) == (b == nil) || len(a) > 0 && &a[0] == &b[0]) }\n")
 	sb.WriteString("func hvcFloorDiv(a, b int) int { q := a / b; if (a%b != 0) && ((a < 0) != (b < 0)) { q-- }; return q }\n")
 	sb.WriteString("func hvcFloorMod(a, b int) int { return a - b*hvcFloorDiv(a, b) }\n")
 	return sb.String()
